@@ -20,6 +20,10 @@ CHECKS = {
          "The victim sim-process is crashed before its k-th system call of the send for every k (and after it, and clean exit) for 1..6-packet messages with/without attachments, with 0/1 surviving sender in another sim-process, observed by recv, try_recv, receiver set and router; descriptors of the dead process are reaped one per scheduling step. Exhaustive over crash points within these bounds; schedules are sampled.", "5/C12"),
  "C13": ("fault_enumeration", "deterministic simulation with ENOBUFS injected at every subset of the first 10 transmission attempts (2^10 patterns) per shape",
          "Every ENOBUFS pattern over the first 10 transmission attempts of one send x 5 shapes x attachments x 2 buffer sizes (20480 cases, the complete space stated in the property); oracle: Ok => exact message with probed attachments, Err => nothing delivered, follow-on message intact, no retry packet larger than the receiver's buffer, no livelock. Exhaustive over the fault patterns; receiver/sender interleavings are sampled.", "5/C13"),
+ "C06": ("exploration", "deterministic simulation: seeded schedules of sender threads vs the selecting thread, EINTR and short epoll batches injected; per-member event-sequence model + lost-wake-up detection at quiescence",
+         "1..64 members with bursts (up to 120 queued messages), members added before/with queued traffic/already disconnected/between selects, senders dropped or held, EINTR and short batches injected into epoll_wait; oracle: per member exactly its send sequence under the id add returned, exactly one closure and only when really disconnected, no duplicate ids, and nothing pending while the selector sleeps in select at quiescence. Sampling, not proof.", "5/C06"),
+ "C07": ("exploration", "deterministic simulation: seeded schedules of registering threads, senders, consumers and the router thread; EINTR/short batches; per-route history oracle with drop guards",
+         "1..32 routes (callbacks with drop guards, new crossbeam receivers, bounded caller-supplied crossbeam senders with slow consumers) registered from 1..8 threads with 0..50 messages queued before registration; oracle: each handler sees exactly its messages in order, nothing else, is dropped exactly once, only after its channel is really disconnected, and has been dropped at quiescence. Sampling, not proof.", "5/C07"),
 }
 PENDING = "check not built yet (work in progress in this session; will be claimed once its simulation scenario exists)"
 
